@@ -50,6 +50,7 @@ func zzH_CLI() {
 	wireInOrder := true
 	failWith := make([]string, K)
 	emptyReply := make([]bool, K)
+	unanswered := make([]bool, K)
 	inOrder := true
 	vGo("env", func() {
 		// collect the K requests, then answer them in a chosen order
@@ -81,6 +82,11 @@ func zzH_CLI() {
 		if K == 3 {
 			order = [][]int{{0, 1, 2}, {0, 2, 1}, {1, 0, 2}, {1, 2, 0}, {2, 0, 1}, {2, 1, 0}}[vChoose("order", 6)]
 		}
+		// cli.partial=1: only the first few are answered before the connection ends
+		answered := K
+		if vParam("cli.partial", 0) == 1 {
+			answered = vChoose("answered", K+1)
+		}
 		for x, i := range order {
 			if x != i {
 				inOrder = false // a server without pipelining: outside C05's premise
@@ -88,6 +94,10 @@ func zzH_CLI() {
 			issue := i // which call this request belongs to (first argument byte)
 			if len(got[i].args) > 0 && int(got[i].args[0]) < K {
 				issue = int(got[i].args[0])
+			}
+			if x >= answered {
+				unanswered[issue] = true
+				continue
 			}
 			if vChoose("fail", 2) == 1 {
 				failWith[issue] = "E" + string(rune('0'+issue))
@@ -100,7 +110,11 @@ func zzH_CLI() {
 				m.deliver(zzResponseEnc(enc, got[i].seq, "", zzReplyFor(got[i].args)))
 			}
 		}
-		vQuiesce()
+		// the connection ends after the client has gone quiet, or (cli.cut=1) right behind the last
+		// response: responses received completely before the end still complete their calls
+		if vChoose("eof-right-behind", 1+vParam("cli.cut", 0)) == 0 {
+			vQuiesce()
+		}
 		m.fail(io.EOF)
 	})
 	vAtEnd(func() {
@@ -108,7 +122,9 @@ func zzH_CLI() {
 		vAssert(len(done) == K, "each-call-signalled-once")
 		for i := 0; i < K; i++ {
 			c := calls[i]
-			if failWith[i] != "" {
+			if unanswered[i] {
+				vAssertOn(c.Error == ErrShutdown, "unanswered-call-fails-with-ErrShutdown", c)
+			} else if failWith[i] != "" {
 				vAssertOn(c.Error != nil && c.Error.Error() == failWith[i], "error-text-of-own-call", c)
 				vAssert(len(replies[i]) == 0, "reply-untouched-on-error")
 			} else {
@@ -153,6 +169,7 @@ func zzH_CLIb() {
 		conn.SetPipelining(true)
 	}
 	var keptBufs, keptSnaps [][]byte
+	var keptReplies, keptReplySnaps [][]byte
 	for i := 0; i < K; i++ {
 		var args []byte
 		empty := vChoose("empty-reply", 2) == 1
@@ -188,12 +205,153 @@ func zzH_CLIb() {
 			vAssert(len(reply) == 0, "reply-of-own-args")
 		} else {
 			vAssert(vEqBytes(reply, zzReplyFor(args)), "reply-of-own-args")
+			// the caller keeps the reply (the aliasing body codec hands out the very bytes the
+			// client decoded from) while further traffic flows on the connection
+			keptReplies = append(keptReplies, reply)
+			keptReplySnaps = append(keptReplySnaps, append([]byte(nil), reply...))
 		}
 	}
 	for i := range keptBufs {
 		vAssert(vEqBytes(keptBufs[i], keptSnaps[i]), "context-buffer-untouched-by-later-calls")
 	}
+	for i := range keptReplies {
+		vAssert(vEqBytes(keptReplies[i], keptReplySnaps[i]), "reply-stable-after-later-traffic")
+	}
 	m.auto = false
 	m.fail(io.EOF)
 	vReach("end")
+}
+
+// zzH_CLIm: every call form mixed on ONE connection, one after another and in concurrent pairs, with
+// the process-wide pools (Call objects, flag objects) reused LIFO: plain calls, pings, a stream that is
+// opened, closed and closed again, a stream open that the server refuses. Every plain call gets the
+// reply computed from its own arguments, pings and stream operations report what the server answered.
+// Afterwards a call on a SECOND, healthy connection is outstanding while the first connection ends:
+// it completes once, with its own reply, when its server answers (a completion that leaks from the
+// dying connection through a recycled Call object would end it early with ErrShutdown).
+func zzH_CLIm() {
+	K := vParam("clim.K", 4)
+	vSetPoolReuse(true)
+	m := newZZMsgs(16)
+	m.auto = true
+	m.autoStreams = true
+	m.yieldW = false
+	conn := NewConnWithCodec(NewClientCodec(&zzBytesCodec{}, nil, m, 64))
+	switch vChoose("mode", 3) {
+	case 1:
+		conn.directIO = true
+	case 2:
+		conn.SetPipelining(true)
+	}
+	nCall := 0
+	var keptArgs, keptSnaps [][]byte
+	call := func(c *Conn) {
+		nCall++
+		// the caller's argument slice has spare capacity as large as the connection's buffers: it
+		// stays the caller's (an aliasing body codec hands this very slice to the client codec)
+		args := make([]byte, 2, 64)
+		args[0], args[1] = byte(0x20+nCall), byte(nCall)
+		full := args[:cap(args)]
+		keptArgs = append(keptArgs, full)
+		keptSnaps = append(keptSnaps, append([]byte(nil), full...))
+		var reply []byte
+		err := c.Call("S.Echo", &args, &reply)
+		vAssert(err == nil, "no-error")
+		vAssert(vEqBytes(reply, zzReplyFor(args)), "reply-of-own-args")
+		vAssert(len(args) == 2 && args[0] == byte(0x20+args[1]), "arguments-untouched")
+	}
+	badOpen := func() {
+		s, err := conn.NewStream("S.Nope")
+		vAssert(s == nil && err != nil && err.Error() == zzNoStreamMethod, "refused-stream-open-reports-server-error")
+	}
+	var st Stream
+	pairs := vParam("clim.pairs", 0) == 1
+	if pairs {
+		// concurrent pairs are explored behind three fixed preludes only (schedule space)
+		K = 1
+		switch vChoose("prelude", 3) {
+		case 1:
+			s, err := conn.NewStream("S.Watch")
+			vAssert(err == nil && s != nil, "stream-open-ok")
+			vAssert(s.Close() == nil, "stream-close-ok")
+		case 2:
+			badOpen()
+		}
+	}
+	for i := 0; i < K; i++ {
+		op := 0
+		if pairs {
+			op = 5 + vChoose("pair", 2)
+		} else {
+			op = vChoose("op", 5)
+		}
+		switch op {
+		case 0:
+			call(conn)
+		case 1:
+			vAssert(conn.Ping() == nil, "ping-ok")
+		case 2:
+			vAssume(st == nil)
+			s, err := conn.NewStream("S.Watch")
+			vAssert(err == nil && s != nil, "stream-open-ok")
+			st = s
+		case 3:
+			badOpen()
+		case 4:
+			vAssume(st != nil)
+			vAssert(st.Close() == nil, "stream-close-ok")
+		case 5:
+			fin := make(chan struct{}, 1)
+			vGo("pinger", func() {
+				vAssert(conn.Ping() == nil, "ping-ok")
+				fin <- struct{}{}
+			})
+			vYield() // either caller may get going first, at any point of the other's progress
+			call(conn)
+			<-fin
+		case 6:
+			fin := make(chan struct{}, 1)
+			vGo("opener", func() {
+				badOpen()
+				fin <- struct{}{}
+			})
+			vYield() // either caller may get going first, at any point of the other's progress
+			call(conn)
+			<-fin
+		}
+	}
+	// every plain call went out as a plain call (a request that reaches the server with another
+	// call's flags is answered without being executed)
+	vAssert(m.nCalls == nCall, "request-sent-as-issued")
+	// second connection: its call is outstanding while the first connection ends
+	m2 := newZZMsgs(8)
+	m2.out = make(chan []byte, 4)
+	m2.yieldW = false
+	conn2 := NewConnWithCodec(NewClientCodec(&zzBytesCodec{}, nil, m2, 64))
+	args2 := []byte{0x77, 0x01}
+	var reply2 []byte
+	var err2 error
+	returned := false
+	vGo("other-conn-caller", func() {
+		err2 = conn2.Call("S.Echo", &args2, &reply2)
+		returned = true
+	})
+	vQuiesce()
+	m.fail(io.EOF)
+	vQuiesce()
+	vAssert(!returned, "other-connection-unaffected")
+	f := <-m2.out
+	var r pbRequest
+	r.Unmarshal(f)
+	m2.deliver(zzResponse(r.Seq, "", zzReplyFor(r.Args)))
+	vQuiesce()
+	vAssert(returned && err2 == nil && vEqBytes(reply2, zzReplyFor(args2)), "other-connection-unaffected")
+	m2.fail(io.EOF)
+	vAtEnd(func() {
+		vAssert(vBlocked() == 0, "no-goroutine-stuck")
+		for i := range keptArgs {
+			vAssert(vEqBytes(keptArgs[i], keptSnaps[i]), "arguments-untouched")
+		}
+		vReach("end")
+	})
 }
